@@ -71,6 +71,15 @@ def C03(tier, seed):
 
 
 def C05(tier, seed):
+    p = _C05(tier, seed)
+    # adaptive-fee pools, and the account-substitution probes of the matrix driver (a tick array that does not hold the
+    # position's bound must not be written)
+    p["drivers"] += hist_jobs("hist_af_", seed, 1 if tier == "quick" else 4, 4 if tier == "quick" else 40, 150 if tier == "quick" else 300, "spl", ["--adaptive", "1"])
+    p["drivers"] += matrix_jobs("subst_", tier, seed, "0", "1", 10, 1000, shards_q=1, shards_t=2)
+    return p
+
+
+def _C05(tier, seed):
     p = hist_plan(["C05"], tier, seed, tokens=("spl", "t22"), must={"swap": 50, "increase_liquidity": 20, "decrease_liquidity": 20},
                   explanation="LiqSum/TickSums/TickInit on the projected state after every instruction; toy instance: same invariants; thorough tier: Apalache proves the "
                               "invariants inductive over the liquidity rules for unbounded integer magnitudes (LiqInd.tla: base case + inductive step)")
@@ -276,6 +285,8 @@ def C12(tier, seed):
             drivers += hist_jobs(f"dual_{tk}_", seed, 3, 4, 150, tk, ["--dual", "1", "--crosscheck", "3", "--rewards", rw])
         else:
             drivers += hist_jobs(f"dual_{tk}_", seed, 6, 40, 300, tk, ["--dual", "1", "--crosscheck", "3", "--rewards", rw])
+    # adaptive-fee pools too (their fee-tier index differs from the tick spacing - two adjacent fields of the pool account)
+    drivers += hist_jobs("dual_af_", seed, 2 if tier == "quick" else 6, 4 if tier == "quick" else 40, 150 if tier == "quick" else 300, "t22", ["--dual", "1", "--crosscheck", "3", "--adaptive", "1"])
     drivers += fn_jobs("views", tier, seed, 3000, 100000, shards_q=2, shards_t=8)
     return {"active": ["C12"], "drivers": drivers, "models": [],
             "must_exercise": {"increase_liquidity": 20, "decrease_liquidity": 20, "increase_liquidity_v2": 20, "decrease_liquidity_v2": 20},
